@@ -1,0 +1,77 @@
+//go:build verif
+// +build verif
+
+package apd
+
+import (
+	"crypto/sha256"
+	"encoding/hex"
+	"fmt"
+	"math/big"
+)
+
+// This file is compiled only with the "verif" build tag. It gives the external
+// verification harness read-only access to state the public API does not
+// expose. It adds no behaviour to the package.
+
+// VerifSharedState returns a digest of the package-level tables and constants
+// that operations read (and must never modify), including every unused word of
+// their inline BigInt arrays.
+func VerifSharedState() string {
+	h := sha256.New()
+	wb := func(name string, b *BigInt) {
+		fmt.Fprintf(h, "%s:%v:heap=%v:%v|", name, b._inline, !b.isInline(), b.String())
+	}
+	wd := func(name string, d *Decimal) {
+		fmt.Fprintf(h, "%s:%d:%v:%d:", name, d.Form, d.Negative, d.Exponent)
+		wb(name, &d.Coeff)
+	}
+	for i := range pow10LookupTable {
+		wb(fmt.Sprintf("pow10[%d]", i), &pow10LookupTable[i])
+	}
+	for i := range digitsLookupTable {
+		fmt.Fprintf(h, "digits[%d]=%d|", i, digitsLookupTable[i].digits)
+		wb("border", &digitsLookupTable[i].border)
+		wb("nborder", &digitsLookupTable[i].nborder)
+	}
+	wb("bigOne", bigOne)
+	wb("bigTwo", bigTwo)
+	wb("bigFive", bigFive)
+	wb("bigTen", bigTen)
+	for _, nd := range []struct {
+		n string
+		d *Decimal
+	}{{"zero", decimalZero}, {"eighth", decimalOneEighth}, {"half", decimalHalf}, {"one", decimalOne}, {"two", decimalTwo},
+		{"three", decimalThree}, {"eight", decimalEight}, {"maxint64", decimalMaxInt64}, {"minint64", decimalMinInt64},
+		{"cbrt1", decimalCbrtC1}, {"cbrt2", decimalCbrtC2}, {"cbrt3", decimalCbrtC3}, {"nan", decimalNaN}, {"inf", decimalInfinity}} {
+		wd(nd.n, nd.d)
+	}
+	for _, c := range []*constWithPrecision{decimalLn10, decimalInvLn10} {
+		wd("unrounded", &c.unrounded)
+		for i := range c.vals {
+			wd(fmt.Sprintf("vals[%d]", i), &c.vals[i])
+		}
+	}
+	fmt.Fprintf(h, "base:%d:%d:%d:%d:%q|", BaseContext.Precision, BaseContext.MaxExponent, BaseContext.MinExponent, BaseContext.Traps, BaseContext.Rounding)
+	fmt.Fprintf(h, "negSentinel:%v:%d|roundings:%d", negSentinel.Sign(), len(negSentinel.Bits()), len(roundings))
+	return hex.EncodeToString(h.Sum(nil))
+}
+
+// VerifRepr describes how a BigInt currently stores its value.
+type VerifRepr struct {
+	Inline      bool       // value lives in the inline array
+	NegSentinel bool       // the inline negative marker is set
+	Words       []big.Word // the inline array, all words
+	InnerNeg    bool       // heap form: sign of the wrapped big.Int
+	InnerLen    int        // heap form: number of words of the wrapped big.Int
+}
+
+// VerifRepr returns the representation of z.
+func (z *BigInt) VerifRepr() VerifRepr {
+	r := VerifRepr{Inline: z.isInline(), NegSentinel: z._inner == negSentinel, Words: append([]big.Word(nil), z._inline[:]...)}
+	if !r.Inline {
+		r.InnerNeg = z._inner.Sign() < 0
+		r.InnerLen = len(z._inner.Bits())
+	}
+	return r
+}
